@@ -146,6 +146,9 @@ func (c13) Gen(t *Tape, tier string, run int) interface{} {
 		}
 	}
 	nrec := len(c.Recs)
+	// Chunk lists are non-empty: bam.NewIterator(r, nil) deliberately iterates
+	// over everything (the repository's TestSpecExamplesIterator relies on
+	// it), so "an empty list yields nothing" is not part of the property.
 	for i, n := 0, 1+t.Draw("work", 5); i < n; i++ {
 		a := t.Draw("work", nrec)
 		b := a + t.Draw("work", minInt(nrec-a, 4))
